@@ -30,8 +30,8 @@ CLAIMS = {
  "C15": dict(cat="exploration", tech="TLA+ spec KeyOrder.tla (separator rules transcribed, contract checked by TLC over small domains) + enumeration of real encodings of all built-in key types judged by TLC (KeyOrderTrace.tla)",
    text="exploration with a specification oracle: the contract (order equals value order, a <= sep < b, no longer than a, valid encoding, round trip) is stated in TLA+, the separator rules are model-checked on small domains, and every ordered pair of a per-type corpus of real encodings is judged by TLC.",
    note="pure functions: the specification is the oracle, not an explorer; wider-than-8-bit types are sampled (extremes + byte-position + random)", ref="DESIGN.md 4/C15"),
- "C20": dict(cat="model_checking", tech="TLA+ specs Backend.tla (usage contract) and Close.tla (close hand-off) checked by TLC; TLC trace validation (BackendTrace.tla) of every backend call recorded from histories, failing opens, fault-injected opens, deferred close, strace of a read-only database, and a forced close race",
-   text="every call redb makes on a monitored backend must be an enabled step of Backend.tla: within the length, none after close, exactly one close by the time redb lets go of the backend - across histories, all failing-open variants incl. an I/O error at every call of a repairing open, Database dropped with a live writer; read-only file database via strace. Found and fixed one defect; one known finding (forced race).",
+ "C20": dict(cat="model_checking", tech="TLA+ specs Backend.tla (usage contract) and Close.tla (close hand-off) checked by TLC; TLC trace validation (BackendTrace.tla) of every backend call recorded from histories, failing opens, fault-injected opens, files cut while a recovery is pending, deferred close, strace of a read-only database, and a forced close race",
+   text="every call redb makes on a monitored backend must be an enabled step of Backend.tla: within the length, none after close, exactly one close by the time redb lets go of the backend - across histories, all failing-open variants incl. an I/O error at every call of a repairing open, Database dropped with a live writer; read-only file database via strace. Found and fixed one defect; two known findings (forced race; read beyond the end of a cut file).",
    note="monitor is sequentially consistent; read-only path observed via strace on a real file", ref="DESIGN.md 4/C20"),
  "C08": dict(cat="fault_enumeration", tech="TLA+ spec (Kv.tla + FaultyStep of KvTrace.tla) as oracle for fault enumeration: every sampled backend call of recorded histories fails (permanently / once), the recorded calls and post-fault crash/reopen observations are validated by TLC trace validation",
    text="fault enumeration judged by the TLA+ oracle: no panic, error or specified result, writes refused after a returned error, acknowledged commits present, recovery to one commit point with the failed commit entirely in or out.",
@@ -51,11 +51,11 @@ CLAIMS = {
  "C06": dict(cat="model_checking", tech=PAGER + "TLC evaluation of the ownership invariants (PagerInv.tla) on state projections recorded after every transaction of random histories",
    text="design: Owner1/Pinned/AllocRecordsOk on every state of the model. code: after every transaction end the projected allocator/tree/freed-table/tracker state must satisfy the same invariants, and after a settle sequence nothing may remain pending (storage back to what the contents need).",
    note="reachable sets come from redb's own tree walk via hooks", ref="DESIGN.md 4/C06"),
- "C07": dict(cat="model_checking", tech="Kv.tla savepoint rules + Pager.tla W_Restore checked by TLC; TLC trace validation of random savepoint histories; crash enumeration with persistent savepoints",
+ "C07": dict(cat="model_checking", tech="Kv.tla savepoint rules + Pager.tla W_Restore + Commit.tla savepoint pins checked by TLC; TLC trace validation of random savepoint histories; behaviours generated by TLC from Kv.tla replayed on the code; crash enumeration with persistent savepoints restored on the crash images",
    text="every savepoint call result and all later contents are judged against Kv.tla (restore exact, later savepoints invalid on commit, nothing on abort, persistent ones survive reopen/crash); page accounting after every transaction.",
    note="persistent savepoints of crash images are restored on copies of sampled images, not of every image", ref="DESIGN.md 4/C07"),
- "C01": dict(cat="fault_enumeration", tech="TLA+ spec (Kv.tla CrashAtomic) as oracle for exhaustive crash-point enumeration: every crash image of every backend-operation boundary is reopened by redb and the observation is validated by TLC trace validation",
-   text="fault enumeration judged by the TLA+ oracle: all crash points of recorded histories, all subsets of few unsynced writes (class representatives beyond), byte-prefix and sector tears, crashes during recovery; each observation must be exactly one commit point between the last acknowledged durable commit and the last requested one.",
+ "C01": dict(cat="fault_enumeration", tech="TLA+ specs checked by TLC: Commit.tla (durability protocol, every crash subset, 5 seeded-bad variants) and Recover.tla (the open, step by step, over every header); crash-point enumeration with the TLA+ oracle Kv.tla CrashAtomic: every crash image of every backend-operation boundary is reopened by redb and the observation is validated by TLC trace validation; TLC trace validation of every backend call (CommitTrace.tla) and of the open-time decision per image (RecoverTrace.tla); spec->impl: every input class of Recover.tla realised as a file",
+   text="fault enumeration judged by the TLA+ oracle: all crash points of recorded histories, all subsets of few unsynced writes (class representatives beyond), byte-prefix and sector tears, crashes during recovery; each observation must be exactly one commit point between the last acknowledged durable commit and the last requested one. Every backend call of further histories is a behaviour of Commit.tla; what the open decides (refuse / quick path / which slot, the repair commit it writes, the layout it adopts) equals RecoverOps.tla for sampled crash images and for files built for all 384 input classes of Recover.tla.",
    note="trusted: storage model of docs/design.md, TLC, harness crash-image builder; large unsynced sets are sampled", ref="DESIGN.md 4/C01"),
  "C04": dict(cat="model_checking", tech="TLA+ spec (Kv.tla) + TLC: exhaustive transition tour replayed into redb, and TLC trace validation of random API histories",
    text="TLC enumerates every (state, operation) of a small ordered-map model and every transition is replayed into the real code under a configuration sweep; long random histories of the real code are validated event by event by TLC against the same specification. Exhaustive for the small model, sampled for sizes/configurations.",
@@ -63,7 +63,7 @@ CLAIMS = {
  "C09": dict(cat="model_checking", tech="TLA+ spec (Kv.tla multimap part) + TLC: exhaustive transition tour replayed into redb, and TLC trace validation of random histories",
    text="as C04 for the multimap model (all 512 states x all steps), with values mapped onto byte strings straddling the inline/subtree threshold; random histories with len() and per-key len checked at every step.",
    note="trusted: TLC, harness; multimap values limited to u64 and the byte-string corpus", ref="DESIGN.md 4/C09"),
- "C17": dict(cat="model_checking", tech="TLA+ spec (Kv.tla catalog rules) + TLC trace validation of random catalog histories of the real code",
+ "C17": dict(cat="model_checking", tech="TLA+ spec (Kv.tla catalog rules) + TLC trace validation of random catalog histories of the real code; spec->impl: behaviours generated by TLC from Kv.tla (MC_KvPaths.tla, simulation) replayed on the real code with every result and the committed catalog compared",
    text="every open/close/rename/delete/list call of random histories (right and deliberately wrong kinds and types, handles dropped in any order, commit/abort/reopen) must be an enabled instance of the catalog actions of Kv.tla, including the exact error variant.",
    note="trusted: TLC, harness; 6 normal and 4 multimap (K,V) instantiations", ref="DESIGN.md 4/C17"),
 }
